@@ -8,6 +8,7 @@ import (
 	"net/url"
 	"reflect"
 	"strings"
+	"sync"
 	"testing"
 
 	"github.com/AdguardTeam/golibs/netutil/urlutil"
@@ -222,6 +223,89 @@ var redactProp = vp.Register(vp.Prop[Case]{
 	},
 	Check: checkRedact,
 })
+
+// checkShared (variant "conc", -race): several goroutines redact one shared
+// URL at the same time (RedactUserinfo and RedactUserinfoInURLError with their
+// own errors) while another goroutine reads it.  The functions promise not to
+// modify their input, so this must be race-free, every error text must be the
+// redacted form and the URL must be unchanged afterwards.
+func checkShared(c Case) error {
+	b, ok := c.base()
+	if !ok {
+		return nil
+	}
+	u := *b
+	u.User = c.U1.build()
+	if u.User == nil {
+		return nil
+	}
+	snap := u
+	want := urlutil.RedactUserinfo(&u).String()
+	secretText := u.String()
+	const g = 6
+	var start, done sync.WaitGroup
+	start.Add(1)
+	errs := make([]string, g+1)
+	for i := 0; i < g; i++ {
+		done.Add(1)
+		go func(i int) {
+			defer done.Done()
+			start.Wait()
+			for k := 0; k < 20; k++ {
+				ue := &url.Error{Op: "Get", URL: secretText, Err: errors.New("x")}
+				urlutil.RedactUserinfoInURLError(&u, ue)
+				if ue.URL != want {
+					errs[i] = fmt.Sprintf("error text is %q, want the redacted form %q", ue.URL, want)
+					return
+				}
+				if got := urlutil.RedactUserinfo(&u).String(); got != want {
+					errs[i] = fmt.Sprintf("RedactUserinfo gave %q, want %q", got, want)
+					return
+				}
+			}
+		}(i)
+	}
+	done.Add(1)
+	go func() {
+		defer done.Done()
+		start.Wait()
+		for k := 0; k < 40; k++ {
+			if got := u.String(); got != secretText {
+				errs[g] = fmt.Sprintf("a concurrent reader saw the input URL as %q instead of %q", got, secretText)
+				return
+			}
+		}
+	}()
+	start.Done()
+	done.Wait()
+	for _, e := range errs {
+		if e != "" {
+			return fmt.Errorf("concurrent redaction of one shared URL: %s", e)
+		}
+	}
+	if !reflect.DeepEqual(u, snap) {
+		return fmt.Errorf("concurrent redaction of one shared URL left the input modified: %q", u.String())
+	}
+	vp.Class("shared-url-concurrent-redaction")
+	vp.NonTrivialStr("c16.shared", fmt.Sprintf("%+v", c))
+	vp.Sample("shared", c)
+	return nil
+}
+
+var sharedProp = vp.Register(vp.Prop[Case]{
+	Kind: "c16.shared", Base: 1500,
+	Gen:   redactProp.Gen,
+	Check: func(c Case) error { vp.CurrentJSON("c16.shared", c); return checkShared(c) },
+})
+
+// TestConcurrent runs in the conc variant (-race).
+func TestConcurrent(t *testing.T) {
+	if vp.Variant() != "conc" {
+		t.Skip("runs in the conc variant (-race)")
+	}
+	vp.Run(t, sharedProp)
+	vp.RunConcurrent(t, redactProp, 150, 64, 8)
+}
 
 func TestRedact(t *testing.T) { vp.Run(t, redactProp) }
 func TestReplay(t *testing.T) { vp.Replay(t) }
